@@ -294,6 +294,15 @@ def search(ctx, boost=1, focus=()):
         q["match"] = ("fast", "affine")[(k // 3) % 2]
         ctx.oracle_case("refine", q, run_case("refine", q), nontrivial=True)
         ctx.count(f"refine_satellites_{q['correlation']}_{q['match']}")
+    # a constant zero shift with very different components, partitions of exactly as many frames as the shift has components (and
+    # of 1 and 3 frames next to them), the tightest tolerance: every frame starts from the given lattice shifted by (y, x)
+    for k in range((8 if ctx.tier == "thorough" else 3) * boost):
+        q = gen(rng, 2 * k)
+        q.update({"nframes": [2, 4, 5][k % 3], "partitions": [[[0, 1]], [[0, 1], [2, 3]], [[0], [1, 2], [3, 4]]][k % 3],
+                  "zero_shift": [[-2.0, 2.0], [2.0, -2.0], [-1.75, 2.0]][(k // 3) % 3], "tolerance": 1.0, "match": "fast",
+                  "correlation": ("fast", "fullframe")[k % 2], "exact_min_match": False, "layout": ("mgrid", "list")[(k // 2) % 2]})
+        ctx.oracle_case("refine", q, run_case("refine", q), nontrivial=True)
+        ctx.count("refine_constant_shift_two_frame_partitions")
     for k in range(max(6, n // 2)):
         pat = impl.pattern_params(rng, kinds=("circular", "background_subtraction", "radial_gradient"), rmin=2, rmax=4)
         c = int(np.ceil(pat["search"]))
